@@ -18,6 +18,9 @@ RULE = (
     'a case = (tables, tracer subset, Nthread) compared bitwise with Nthread=1 and row by row with the reference model; direct drives of fast_concatenate / '
     '_searchsorted_parallel over sizes 0,1,N1<<N2,N1>>N2 x every Nthread. non-trivial = distinct (table sizes, tracer subset, Nthread>1) with >= 1 galaxy'
 )
+RULE += (
+    ' Added after seeded round 9: mass-ordered tables (halos ascending, particles grouped by host) with every random 1e-9 and strong secondary bias, all thread counts.'
+)
 ASSUMPTIONS = ['MALLOC_PERTURB_ poisoning active (self-tested); a poisoned element of an output column is an element that was never written']
 
 COLS = ('x', 'y', 'z', 'vx', 'vy', 'vz', 'mass', 'id')
